@@ -108,7 +108,7 @@ def prophy_inputs(draw):
     """-> (label, {relative path: text}, main file)"""
     schema = draw(gen.schemas(gen.GenOpts(max_decls=4, big_sizes=False)))
     text = schema.to_prophy()
-    kind = draw(st.sampled_from(['valid', 'mutant', 'mutant', 'soup', 'unicode', 'division', 'self_include',
+    kind = draw(st.sampled_from(['valid', 'mutant', 'mutant', 'soup', 'unicode', 'division', 'shift', 'self_include',
                                  'mutual_include', 'missing_include', 'use_before_def', 'recursive']))
     files = {}
     if kind == 'valid':
@@ -124,6 +124,13 @@ def prophy_inputs(draw):
         op = draw(st.sampled_from(['/', '>>', '<<', '*', '-']))
         files['m.prophy'] = ('const A = %d %s %d;\nconst B = A %s 2;\nstruct S\n{\n    u8 x[B + 1];\n};\n'
                              'union U\n{\n    A: u8 a;\n    B + 9: u8 b;\n};\n' % (a, op, b, op))
+    elif kind == 'shift':
+        a = draw(st.sampled_from([-1, -3, -64, 0, 1, 64, 4000, 100000]))
+        op = draw(st.sampled_from(['<<', '>>']))
+        form = draw(st.integers(0, 2))
+        files['m.prophy'] = ['const A = 1 %s %d;\n' % (op, a),
+                             'enum E\n{\n    E_a = 2 %s (%d)\n};\n' % (op, a),
+                             'const N = %d;\nstruct S\n{\n    u8 x[1 %s N];\n};\n' % (a, op)][form] + text
     elif kind == 'self_include':
         files['m.prophy'] = '#include "m.prophy"\n' + text
     elif kind == 'mutual_include':
@@ -144,6 +151,13 @@ ISAR_FRAGMENTS = [
     '<struct name="A"><member name="b" type="B"/></struct><struct name="B"><member name="a" type="A"/></struct>',
     '<struct name="A"><member name="a" type="A"/></struct>',
     '<typedef name="T" type="T"/>',
+    '<typedef name="A" type="A"/><struct name="SA"><member name="a" type="A"/></struct>',
+    '<typedef name="A1" type="A2"/><typedef name="A2" type="A1"/><struct name="SA"><member name="a" type="A1"/></struct>',
+    '<struct name="Msg"><member name="a" type="CA"/></struct><struct name="CA"><member name="b" type="CB"/></struct>'
+    '<struct name="CB"><member name="a" type="CA"/></struct>',
+    '<constant name="SH" value="1 << -1"/>',
+    '<constant name="SH" value="shiftLeft(1, -2)"/><struct name="S"><member name="x" type="u8"><dimension size="SH"/></member></struct>',
+    '<constant name="SH" value="1 >> -1"/><enum name="E"><enum-member name="a" value="SH"/></enum>',
     '<typedef name="T1" type="T2"/><typedef name="T2" type="T1"/>',
     '<constant name="C" value="C"/>',
     '<constant name="C1" value="C2 + 1"/><constant name="C2" value="C1 + 1"/>',
